@@ -10,7 +10,7 @@ SHT_NULL, SHT_PROGBITS, SHT_SYMTAB, SHT_STRTAB = 0, 1, 2, 3
 
 def build(entry, segments, symbols=None, phdr_extra=b"", ehdr_patch=None, shstr=True):
     """segments: list of dicts {type, flags, vaddr, data(bytes), memsz, align?, offset?(forced), filesz?(forced)}
-    symbols: None (no section headers at all) or list of (name or None, value, shndx) -> .symtab/.strtab sections.
+    symbols: None (no section headers at all) or list of (name or None, value, shndx[, st_info]) -> .symtab/.strtab sections.
     ehdr_patch: dict field->value applied to the ELF header after layout (for malformed-input generation).
     Returns bytes."""
     ehsize, phentsize, shentsize = 64, 56, 64
@@ -38,13 +38,15 @@ def build(entry, segments, symbols=None, phdr_extra=b"", ehdr_patch=None, shstr=
     if symbols is not None:
         strtab = b"\0"
         syms = [struct.pack("<IBBHQQ", 0, 0, 0, 0, 0, 0)]
-        for name, value, shndx in symbols:
+        for sym in symbols:
+            name, value, shndx = sym[:3]
+            info = sym[3] if len(sym) > 3 else 0x12          # default: GLOBAL FUNC
             if name is None:
                 st_name = 0
             else:
                 st_name = len(strtab)
                 strtab += name.encode() + b"\0"
-            syms.append(struct.pack("<IBBHQQ", st_name, 0x12, 0, shndx, value, 0))
+            syms.append(struct.pack("<IBBHQQ", st_name, info, 0, shndx, value, 0))
         symtab = b"".join(syms)
         shstrtab = b"\0.symtab\0.strtab\0.shstrtab\0"
         sym_off = off
